@@ -6,6 +6,14 @@ BASE = "cd /repo && /venv/bin/python -m pytest -ra -q -p no:cacheprovider --time
 
 # id -> (engine, level, technique, level text, level note, design ref)
 CHECKS = {
+ "C14": ("HX", "exploration",
+         "exhaustive enumeration of length-3 histories (build operands -> call -> one in-place mutation of the result) executed from scratch over a 306-entry table of operators/accessors/helpers x operand palettes x every mutation site, with byte/identity/extent fingerprints",
+         "Every public operator, accessor, copy constructor and in-scope helper of tm/Screw/Wrench/fsr, all 47 shared Modern Robotics functions plus extras, the Arm/SP constructors and loaders, and all default-argument objects (treated as hidden operands) are exercised with 2-3 operand palettes each; operands must be byte-identical afterwards, results must not share memory with operands, and no mutation of a result may reach an operand or a default.",
+         "Histories of length 3 only (one call, one mutation); snapshots are never used because they would sever the sharing under test. Exclusions exactly as the property lists them.", "DESIGN 4/C14"),
+ "C19": ("HX", "model_checking",
+         "explicit-state BFS over router operation histories on the real Comms hub with in-memory endpoint doubles and a scripted fake socket, against a bag-valued reference model; plus TLC enumeration of a TLA+ model of the hub whose every edge is replayed against the implementation",
+         "Direct exploration: all histories to depth 4 (quick) / 6 (thorough) over a 67-operation alphabet on 2 endpoints (+UDP endpoint on a fake socket, 3-endpoint hub in thorough) with the explorer choosing message/no-data at every receive position. Conformance: the complete TLC state graph of tla/Router.tla (quick 8 449 states / 278 817 edges; thorough 114 689 / 3.2 M) is dumped and every edge replayed on the real hub.",
+         "Bounded depth and hub size (<= 3 endpoints, 2 sinks, 1 source); sockets are scripted doubles; delivery order within a bag is not judged. Without tlc on PATH the check falls back to the direct exploration and says so.", "DESIGN 4/C19, 3.4"),
  "C07": ("LX", "exploration",
          "bounded-exhaustive enumeration of goal x start x tolerance-setting x solver-path lattices on arms in four structural states, plus complete enumeration of restart-vector sequences (scripted random source); errors recomputed independently",
          "Per arm and state: goals from in-limit joint vectors (generic, 0.15 rad from a limit, on a limit), starts (exact, +-0.02 rad on every joint, far, zeros, current, a full turn outside the limits), three tolerance settings with position != orientation tolerance, both solver paths; tolerance-boundary goals (the only inputs that expose a tolerance swap); unreachable goals; all 9 restart-vector sequences of length 2 over a 3-vector menu. Success => recomputed errors within the matching tolerances, inside limits, state = solution; failure => coherent state; local convergence on the stated sub-domain.",
